@@ -186,6 +186,8 @@ def render : Ev → String
   | .hbs l => "hbs \"" ++ " ".intercalate l ++ "\""
   | .out n t => (s!"out {n} {t}").trimAsciiEnd.toString
   | .slots n => s!"slots {n}"
+  | .refs m x => s!"refs {m} {x}"
+  | .slotIdx l => (s!"slotidx {" ".intercalate (l.map toString)}").trimAsciiEnd.toString
   | .crash why => s!"crash {why}"
 
 /-- inverse of `render` on implementation trace lines; anything else is a crash-class line -/
@@ -213,6 +215,8 @@ def parseEv (line : String) : Ev :=
   | ["out", n] => .out n ""
   | ["out", n, t] => .out n t
   | ["slots", n] => match n.toNat? with | some n => .slots n | none => .crash line
+  | "slotidx" :: l => .slotIdx (l.filterMap String.toNat?)
+  | ["refs", m, x] => match m.toInt?, x.toInt? with | some m, some x => .refs m x | _, _ => .crash line
   | _ => .crash line
 
 def runModel (lines : List String) : List String :=
